@@ -18,6 +18,10 @@ thread_local! {
 }
 
 fn stage(name: &'static str) {
+    // debugging aid: VERIF_STAGE_TIMES=1 prints when each stage starts
+    if std::env::var_os("VERIF_STAGE_TIMES").is_some() {
+        eprintln!("[{:?}] {name}", std::time::SystemTime::now().duration_since(std::time::UNIX_EPOCH).map(|d| d.as_millis() % 100000).unwrap_or(0));
+    }
     STAGE.with(|s| s.set(name));
 }
 
